@@ -347,6 +347,48 @@ fn main() {
             if i == seq.len() { break 'outer; }
         }
     }
+    // every graph on <= 3 vertices (ids 0..3) followed by every pair of edit operations, views checked after each
+    for n in 0..=3usize {
+        for bits in 0u32..(1u32 << (n * n)) {
+            for &o1 in &ops { for &o2 in &ops {
+                let (mut g, mut m) = build(&[0, 1, 2, 3], n, bits);
+                for (k, a, b) in [o1, o2] {
+                    evals += 1;
+                    let r = catch_unwind(AssertUnwindSafe(|| match k {
+                        0 => g.insert_vertex(NullVertex::new(a)).is_ok(),
+                        1 => g.remove_vertex(a).is_ok(),
+                        2 => g.insert_edge(NullEdge::new(a, b)).is_ok(),
+                        _ => g.remove_edge(a, b).is_ok(),
+                    }));
+                    let exp_ok = match k {
+                        0 => !m.vs.contains(&a),
+                        1 => m.vs.contains(&a),
+                        2 => m.vs.contains(&a) && m.vs.contains(&b) && !m.es.contains(&(a, b)),
+                        _ => m.es.contains(&(a, b)),
+                    };
+                    if exp_ok { match k {
+                        0 => { m.vs.insert(a); }
+                        1 => { m.vs.remove(&a); m.es.retain(|e| e.0 != a && e.1 != a); }
+                        2 => { m.es.insert((a, b)); }
+                        _ => { m.es.remove(&(a, b)); }
+                    } }
+                    match r { Ok(ok) if ok == exp_ok => {}, other => { report!("edit", m, a, (k, a, b, other.ok()), exp_ok); } }
+                    let vs = set_of(g.vertices().iter().map(|v| v.index()));
+                    let es: BTreeSet<(usize, usize)> = g.edges().iter().map(|e| (e.head(), e.tail())).collect();
+                    let mut ok = vs == m.vs && es == m.es && g.num_vertices() == m.vs.len();
+                    for &v in &m.vs {
+                        ok = ok && g.has_vertex(v)
+                            && g.successor_indices(v).map(|s| set_of(s)).ok() == Some(m.succ(v))
+                            && g.predecessor_indices(v).map(|s| set_of(s)).ok() == Some(m.pred(v))
+                            && g.edges_out(v).map(|s| set_of(s.iter().map(|e| e.tail()))).ok() == Some(m.succ(v))
+                            && g.edges_in(v).map(|s| set_of(s.iter().map(|e| e.head()))).ok() == Some(m.pred(v));
+                    }
+                    for h in 0..3 { for t in 0..3 { ok = ok && g.has_edge(h, t) == m.es.contains(&(h, t)); } }
+                    if !ok { report!("view-consistency", m, a, (vs, es), "views equal to the set model"); }
+                }
+            } }
+        }
+    }
     let po: Vec<String> = per_op.iter().map(|(k, v)| format!("\"{}\":{}", k, v)).collect();
     println!("{{\"summary\":true,\"evaluations\":{},\"graphs\":{},\"disagreements\":{},\"per_op\":{{{}}}}}", evals, graphs, found, po.join(","));
 }
